@@ -78,6 +78,32 @@ CHECKS = {
          "Trusted: the 18 s constant is the specification; i128 arithmetic of the oracle.",
          "DESIGN.md 5 C18"),
 }
+
+# additions made when the checks were extended (technique suffix, level-text suffix)
+EXTRA = {
+ "C01": ("; metamorphic history-independence check over families of related inputs (same Comm-B payload under other headers, truncated / padded copies, other DF / address, one bit apart) evaluated in several orders on one thread; valid frames padded / cut to every wrong length",
+         " Families of related inputs are decoded in the given order, in reverse order and alone after nine unrelated inputs of every kind on one thread: all results for one input must be equal. Every golden frame and one frame per shape is padded with zeros / ones / itself to every length up to 32 and cut short."),
+ "C02": ("; history-independence over families of related inputs (truncated or padded copy then the frame, same payload under another header or address)",
+         " Checksum, acceptance and recovered address of an input must not depend on what was decoded before it on the same thread (families in several orders)."),
+ "C03": ("; addresses also through the address/parity formats (DF0/4/5/16/20/21)", " Addresses are swept through all nine address-carrying formats, on the struct field and the JSON key."),
+ "C04": ("; distinct same-parity pairs; sequences of related points on one thread", " Same-parity pairs are also two different reports (second point 1 m to 1000 km away, other altitude and type code, both orders); carrier frames use every airborne type code, any altitude code and address; related points (a whole number of latitude zones apart) are decoded one after the other on one thread."),
+ "C05": ("; sequences of related decodes on one thread (same report against a far reference, a report a whole number of latitude zones away, the other parity), each judged by its own oracle", " Carrier frames use every type code, any altitude / movement code and address."),
+ "C06": ("; the same histories through three more front ends as differential + oracle: the real decode1090 binary, the Python binding (decode_1090t_vec, loaded into python3), and end to end the real jet1090 binary served over one or two Beast TCP sources; moving-reference and hidden-reference scenarios",
+         " Carrier frames vary in every field (type codes, altitude coding, movement, status bits, CA/CF); non-position messages of the same aircraft are interleaved, also during gaps; parity-selective loss; 'low altitude' scenarios let the decoder move the receiver reference, 'hidden reference' scenarios give it none. The histories also run through decode1090, through the Python binding in chunks, and slow traffic runs in real time through the real jet1090 binary over TCP (positions printed and served by /all within 25 m)."),
+ "C07": ("; differential against the real decode1090 binary (argument and file mode, which unwraps to_string); history-independence of the serialised record over families of related frames",
+         " Batches of generated frames and every base shape also go through the real decode1090 binary: no abort, the library's JSON line per frame, file-mode records keep timestamp, frame and every decoded field."),
+ "C08": ("; every frame of the per-field code sweeps of C03 (every code of every ADS-B and BDS 4,0/5,0/6,0 field, independent encoder) through the same range predicate", " Every code of every field enumerated for C03 (e.g. Mach code 1, the largest plausible codes) is range-checked too."),
+ "C09": ("; the same oracle through the reader's real socket arms (loopback TCP closed at the end, loopback UDP datagrams with exact chunk boundaries)", " The TCP and UDP arms of the reader are exercised over loopback sockets with the same oracle."),
+ "C10": ("; end to end: overlapping frame sets through two Beast TCP sources into the real jet1090 binary, conservation of receptions per frame and receiver", " The deduplicator as the application wires it is exercised end to end over two TCP sources (nothing invented, lost, duplicated or misattributed; record time = first reception)."),
+ "C11": ("; end to end: the real jet1090 binary with the filters given on the command line or in a configuration file, its stdout and --output file compared with the specification", " Batches of distinct frames of every address-carrying DF (and frames that do not decode) are served to the real jet1090 binary over TCP; what it prints and writes must be exactly the records whose shown df / icao24 pass."),
+ "C12": ("; end to end: histories served to the real jet1090 binary over TCP, table read from its /all endpoint", " One identification in five carries an unassigned character; clocks start at Unix time, at 0 s, within the first second, at 1000 s or beyond 2^32 s. The distinct frames of such histories are also served to the real binary over TCP and /all is judged (key set, counts, seen times, provenance from the records it printed)."),
+ "C13": ("; every code again right after each neighbour one bit (and two bits) away on one thread (history independence)", " An ascending sweep never decodes two codes that differ in one high bit back to back; the neighbour passes do."),
+ "C16": ("; table forms with a jump host; number-like references with 0-4 parts", " The long table forms are also written with a jump host (same endpoint, same serial); references made of 0-4 number-like parts with signs, exponents and empty parts are part of the totality family."),
+ "C17": ("; every printable ASCII character, six non-ASCII characters and every special key in ten contexts; long multi-byte search patterns typed and erased", " 'Other char' is not one representative: each of 95 ASCII characters, 6 non-ASCII characters and 13 special keys is pressed at start-up, after moving, in search mode (empty / non-empty pattern) and after leaving it, for 0..3 rows; patterns of 1-300 one- to four-byte characters are typed and erased."),
+}
+for k, (t, l) in EXTRA.items():
+    tech, text, note, ref = CHECKS[k]
+    CHECKS[k] = (tech + t, text + l, note, ref)
 PENDING_REASON = "check not yet built in this session (work in progress; see DESIGN.md 5 for the planned check)"
 
 props = [json.loads(l) for l in open(os.path.join(HERE, "properties.jsonl"))]
@@ -119,7 +145,7 @@ m = {
  },
  "engines": [
    {"name": "vcheck", "path": "/verif/harness", "serves_properties": sorted(CHECKS),
-    "kind_free_text": "Rust binary: proptest TestRunner (fixed seed from VERIF_SEED, shrinking, no persistence) + deterministic exhaustive sweeps (rayon) against independent encoders and reference models in harness/vcore; writes evidence and replay files itself"},
+    "kind_free_text": "Rust binary (also drives the real decode1090 / jet1090 binaries and the Python binding as external processes): proptest TestRunner (fixed seed from VERIF_SEED, shrinking, no persistence) + deterministic exhaustive sweeps (rayon) against independent encoders and reference models in harness/vcore; writes evidence and replay files itself"},
  ],
  "checks": checks,
  "not_applicable": na,
